@@ -169,3 +169,46 @@ Proof.
   - intros x Hx. vm_compute in Hx. destruct Hx as [E|[E|[E|[]]]]; subst x; reflexivity.
   - split; vm_compute; reflexivity.
 Qed.
+
+(* ---- dynblock: the variables reported by the walkers are a complete dependency set ---------------
+   Model: walk_vars in Dyn/Expand.v (WalkVariablesNode.Visit + walkVariablesWithHCLDec; compared with
+   the code on every case of C18); proofs: Dyn/ExpandVarsProofs.v. agree_names l c c' = the two contexts
+   resolve every name of l alike; body_keys_ok = forced_keys_nonliteral for every expression of the body
+   (the side condition of C07_coincidence); no_just S = no level of the schema tree is read with
+   JustAttributes (no BlockAttrsSpec). *)
+From HclV Require Dyn.Expand Dyn.ExpandVarsProofs.
+
+(* WalkExpandVariables / ExpandVariablesHCLDec: contexts that agree on the reported roots expand alike *)
+Theorem C07_dynblock_expand_vars_sufficient :
+  forall (S : Dyn.Expand.sch) (b : Dyn.Expand.dbody) (c1 c2 rho : ctx),
+    ExpandVarsProofs.body_keys_ok b = true -> same_funcs c1 c2 ->
+    ExpandVarsProofs.agree_names (Dyn.Expand.walk_vars false S None b) c1 c2 ->
+    Dyn.Expand.observe_x S rho (Dyn.Expand.Expand b c1) = Dyn.Expand.observe_x S rho (Dyn.Expand.Expand b c2).
+Proof. exact ExpandVarsProofs.expand_vars_sufficient. Qed.
+Print Assumptions C07_dynblock_expand_vars_sufficient.
+
+(* WalkVariables / VariablesHCLDec: ... and decode alike, when no level is read with JustAttributes *)
+Theorem C07_dynblock_all_vars_sufficient_partial :
+  forall (S : Dyn.Expand.sch) (b : Dyn.Expand.dbody) (c1 c2 rho1 rho2 : ctx),
+    ExpandVarsProofs.no_just S = true -> ExpandVarsProofs.body_keys_ok b = true ->
+    same_funcs c1 c2 -> same_funcs rho1 rho2 ->
+    ExpandVarsProofs.agree_names (Dyn.Expand.walk_vars false S None b) c1 c2 ->
+    ExpandVarsProofs.agree_names (Dyn.Expand.walk_vars true S None b) rho1 rho2 ->
+    Dyn.Expand.observe_x S rho1 (Dyn.Expand.Expand b c1) = Dyn.Expand.observe_x S rho2 (Dyn.Expand.Expand b c2).
+Proof. exact ExpandVarsProofs.all_vars_sufficient_partial. Qed.
+Print Assumptions C07_dynblock_all_vars_sufficient_partial.
+
+(* the pruned scope of the property text *)
+Theorem C07_dynblock_pruned_scope_same :
+  forall (S : Dyn.Expand.sch) (b : Dyn.Expand.dbody) (c : ctx),
+    ExpandVarsProofs.no_just S = true -> ExpandVarsProofs.body_keys_ok b = true ->
+    let c' := prune (Dyn.Expand.walk_vars true S None b) c in
+    Dyn.Expand.observe_x S c' (Dyn.Expand.Expand b c') = Dyn.Expand.observe_x S c (Dyn.Expand.Expand b c).
+Proof. exact ExpandVarsProofs.all_pruned_context. Qed.
+Print Assumptions C07_dynblock_pruned_scope_same.
+
+(* without no_just the statement is false: the known finding C07-blockattrs-variables, `a { u = foo }`
+   under BlockAttrsSpec a *)
+Theorem C07_dynblock_all_vars_sufficient_refuted : ~ ExpandVarsProofs.all_vars_sufficient.
+Proof. exact ExpandVarsProofs.all_vars_sufficient_false. Qed.
+Print Assumptions C07_dynblock_all_vars_sufficient_refuted.
